@@ -13,6 +13,7 @@ statuses and texts, the marker file written by the commands themselves, and a
 scan of the directory tree.
 """
 import os
+import pathlib
 import re
 import shutil
 import tempfile
@@ -29,6 +30,7 @@ from valjean.cosette.depgraph import DepGraph
 from valjean.cosette.scheduler import Scheduler
 from valjean.cosette.env import Env
 from valjean.cosette.backends.queue import QueueScheduling
+import valjean.path as vpath
 from vlib.core import Failure, Outcome, exc_failure
 
 ID = 'C19'
@@ -72,7 +74,7 @@ BUDGET = {'quick': {'cases': 8000, 'shards': 16, 'seconds': 150, 'shrink_s': 20}
 FLOORS = {'direct': 0.3, 'sched': 0.3, 'sched-2w': 0.1, 'fail-nonlast': 0.25,
           'unstartable': 0.12, 'unstartable-nonlast': 0.05, 'invalid-name': 0.12,
           'rerun-same-name': 0.12, 'multi-task-root': 0.5, 'signal': 0.04,
-          'confusable-names': 0.05, 'code-task': 0.15}
+          'confusable-names': 0.05, 'code-task': 0.15, 'logdir-race-requested': 0.04}
 
 TMPBASE = '/dev/shm' if os.path.isdir('/dev/shm') else '/var/tmp'
 HANG_S = 20.0
@@ -167,8 +169,20 @@ def _case(draw):
         mode = draw(st.sampled_from(['direct', 'sched']))
         tasks = draw(st.lists(_task(len(names)), min_size=1, max_size=min(4, len(names)),
                               unique_by=lambda t: t['name']))
-        rounds.append({'mode': mode, 'workers': draw(st.sampled_from([1, 2, 2])) if mode == 'sched'
-                       else 0, 'tasks': tasks})
+        rnd = {'mode': mode, 'workers': draw(st.sampled_from([1, 2, 2])) if mode == 'sched' else 0,
+               'tasks': tasks}
+        if len(names) >= 2 and draw(st.integers(0, 7)) == 0:
+            # two workers, a checkout and a build task that use the (shared) log directory for the
+            # first time: the schedule "both see it missing, one creates it, then the other" is
+            # forced (see _LogDirRace)
+            first, second = draw(st.permutations(range(len(names))))[:2]
+            head = [{'name': first, 'ctor': 'checkout', 'tool': None,
+                     'cmds': [draw(_cmd(startable=True)), draw(_cmd(startable=True))]},
+                    {'name': second, 'ctor': 'build', 'tool': None,
+                     'cmds': [draw(_cmd(startable=True)), draw(_cmd(startable=True))]}]
+            rest = [t for t in tasks if t['name'] not in (first, second)]
+            rnd = {'mode': 'sched', 'workers': 2, 'tasks': head + rest, 'race': 'logdir'}
+        rounds.append(rnd)
     return {'root': draw(st.sampled_from(['exists', 'exists', 'missing', 'deep-missing'])),
             'names': names, 'rounds': rounds}
 
@@ -227,6 +241,12 @@ def enumerations(tier):
                             yield {'root': 'missing', 'names': ['t', 'other'], 'rounds': [
                                 {'mode': mode, 'workers': 2, 'tasks': [task, other]},
                                 {'mode': mode, 'workers': 1, 'tasks': [task]}]}
+        for fault in [None] + faults[:5]:
+            for first, second in (('checkout', 'build'), ('build', 'checkout'), ('build', 'build')):
+                tasks = [{'name': 0, 'ctor': first, 'cmds': [cmd_of(None, 0), cmd_of(fault, 1)], 'tool': None},
+                         {'name': 1, 'ctor': second, 'cmds': [cmd_of(fault, 0), cmd_of(None, 1)], 'tool': None}]
+                yield {'root': 'exists', 'names': ['t', 'other'], 'rounds': [
+                    {'mode': 'sched', 'workers': 2, 'tasks': tasks, 'race': 'logdir'}]}
 
     return [('fault-kind-x-position-n<=4', positions, True),
             ('invalid-names', invalid_names, True),
@@ -483,6 +503,9 @@ def _input_labels(case, plan, out):
                 lab.append('invalid-name')
             if exe.name in names_so_far:
                 lab.append('rerun-same-name')
+        if _race_wanted(rnd, execs):
+            lab.append('logdir-race-requested')
+        for exe in execs:
             if exe.cause.endswith('-nonlast'):
                 lab.append('fail-nonlast')
                 out.nontrivial = True
@@ -529,6 +552,56 @@ def _short(data, limit=80):
 
 # --------------------------------------------------------------------------
 # execution
+
+class _LogDirRace:
+    """Forces one legal interleaving of two workers that both need a directory that does not
+    exist yet: the first ``exists()`` on it answers False and the directory is then created (by
+    "the other worker", which had also seen it missing) before the caller goes on.  Done by giving
+    valjean.path a Path class whose exists() does that, once, for that directory only."""
+
+    def __init__(self, directory):
+        self.directory = directory
+        self.fired = False
+        self.lock = threading.Lock()
+        self.saved = None
+
+    def __enter__(self):
+        race = self
+
+        class RacyPath(type(pathlib.Path())):
+            def exists(self, **kwargs):
+                if str(self) != race.directory:
+                    return super().exists(**kwargs)
+                with race.lock:
+                    res = super().exists(**kwargs)
+                    if not res and not race.fired:
+                        race.fired = True
+                        os.makedirs(race.directory, exist_ok=True)
+                    return res
+
+        self.saved = vpath.Path
+        vpath.Path = RacyPath
+        return self
+
+    def __exit__(self, *exc):
+        vpath.Path = self.saved
+        return False
+
+
+class _NoRace:
+    fired = False
+
+    def __enter__(self):
+        return self
+
+    def __exit__(self, *exc):
+        return False
+
+
+def _race_wanted(rnd, execs):
+    return (rnd.get('race') == 'logdir' and rnd['mode'] == 'sched' and (rnd.get('workers') or 1) >= 2
+            and sum(exe.ctor in CODE_CTORS for exe in execs) >= 2)
+
 
 def _schedule(tasks, workers, config, box):
     try:
@@ -594,8 +667,13 @@ def _history(case, tmp, out):
             box = {}
             thread = threading.Thread(target=_schedule, daemon=True,
                                       args=([exe.task for exe in runnable], workers, config, box))
-            thread.start()
-            thread.join(HANG_S)
+            race = (_LogDirRace(os.path.join(tmp, 'fx', 'log')) if _race_wanted(rnd, execs)
+                    else _NoRace())
+            with race:
+                thread.start()
+                thread.join(HANG_S)
+            if race.fired:
+                out.labels.append('logdir-race-forced')
             cause = ('unstartable-command' if any(exe.kind == 'unstartable' for exe in runnable)
                      else 'invalid-name' if any(not exe.valid for exe in runnable) else 'plain')
             if thread.is_alive():
@@ -719,6 +797,12 @@ def _judge_code(exe, mode, tmp, fails):
     except FileNotFoundError:
         marks = []
     ran_ok = marks == [str(i) for i in exe.ran]
+    if not ran_ok and not marks and (raised is not None or (status == TaskStatus.FAILED
+                                                            and update is None)):
+        fail('spurious_failure', 'spurious_failure',
+             f'the task failed ({raised!r:.150}) before running any step although its tool can be '
+             f'started (steps expected: {exe.ran})')
+        return
     if not ran_ok:
         extra = 'later-commands-ran' if len(marks) > len(exe.ran) else 'commands-missing'
         fail('commands_run', f'commands_run/{extra}/{exe.kind}',
